@@ -615,7 +615,10 @@ def _dtype_kind(dt):
         n = dt.name
         if n in ("int", "numpy.int64", "numpy.intp", "numpy.int32"):
             return "int"
-        if n in ("float", "numpy.float64", "numpy.float32"):
+        if n == "numpy.float32":
+            # a cast to single precision is a rounding operation: outside A-REAL (floats as exact reals), never the identity
+            raise Unsupported("cast to numpy.float32 (a rounding operation; the real-arithmetic model cannot treat it as the identity)")
+        if n in ("float", "numpy.float64"):
             return "real"
         if n in ("complex", "numpy.complex128"):
             return "cx"
@@ -629,6 +632,8 @@ def _dtype_kind(dt):
         if dt.name.startswith("dtype:"):
             return dt.name.split(":")[1]
     if isinstance(dt, str):
+        if dt in ("float32", "float16", "f4", "f2", "complex64"):
+            raise Unsupported(f"cast to {dt} (a rounding operation outside the real-arithmetic model)")
         return {"float64": "real", "int64": "int", "complex128": "cx", "float": "real", "int": "int", "complex": "cx"}.get(dt)
     raise Unsupported(f"dtype {dt!r}")
 
